@@ -181,14 +181,14 @@ theorem sameColl_setOp_rew (s : State) (o : Operator) (r : Coins) (a : Addr) (ho
   apply setOp_rew_find_coll
   simpa [findOp, hoa] using ho
 
-theorem sameColl_aggregate (s s' : State) (k : String) (h : aggregate s k = .ok s') : SameColl s s' := by
+theorem sameColl_aggregate (bond : Denom) (s s' : State) (k : String) (h : aggregate bond s k = .ok s') : SameColl s s' := by
   unfold aggregate at h
   ok_cases h
   all_goals (injection h with h; subst h; exact sameColl_setTask _ _)
 
-theorem sameColl_payCoin (b : Nat) (dn : Denom) (amount tv : Int) :
+theorem sameColl_payCoin (bond : Denom) (b : Nat) (dn : Denom) (amount tv : Int) :
     ∀ (rs : List Response) (s : State) (done : List Response) (s' : State) (out : List Response),
-      payCoin b dn amount tv s rs done = .ok (s', out) → SameColl s s' := by
+      payCoin bond b dn amount tv s rs done = .ok (s', out) → SameColl s s' := by
   intro rs
   induction rs with
   | nil => intro s done s' out h; simp only [payCoin] at h; injection h with h; injection h with h1 _; subst h1; exact SameColl.refl _
@@ -208,9 +208,9 @@ theorem sameColl_payCoin (b : Nat) (dn : Denom) (amount tv : Int) :
             exact SameColl.trans (sameColl_setOp_rew s o _ r.op ho) (ih _ _ _ _ h)
     · exact ih _ _ _ _ h
 
-theorem sameColl_payAll (b : Nat) (tv : Int) :
+theorem sameColl_payAll (bond : Denom) (b : Nat) (tv : Int) :
     ∀ (cs : List (Denom × Int)) (s : State) (rs : List Response) (s' : State) (out : List Response),
-      payAll b tv cs s rs = .ok (s', out) → SameColl s s' := by
+      payAll bond b tv cs s rs = .ok (s', out) → SameColl s s' := by
   intro cs
   induction cs with
   | nil => intro s rs s' out h; simp only [payAll] at h; injection h with h; injection h with h1 _; subst h1; exact SameColl.refl _
@@ -220,16 +220,16 @@ theorem sameColl_payAll (b : Nat) (tv : Int) :
     split at h
     · cases h
     · rename_i s1 rs1 h1
-      exact SameColl.trans (sameColl_payCoin b c.1 c.2 tv rs s [] s1 rs1 h1) (ih _ _ _ _ h)
+      exact SameColl.trans (sameColl_payCoin bond b c.1 c.2 tv rs s [] s1 rs1 h1) (ih _ _ _ _ h)
 
-theorem sameColl_distribute (s s' : State) (t : Task) (h : distributeBounty s t = .ok s') : SameColl s s' := by
+theorem sameColl_distribute (bond : Denom) (s s' : State) (t : Task) (h : distributeBounty bond s t = .ok s') : SameColl s s' := by
   unfold distributeBounty at h
   ok_cases h
   rename_i s1 rs1 h1
   injection h with h; subst h
-  exact SameColl.trans (sameColl_payAll _ _ _ _ _ _ _ h1) (sameColl_setTask _ _)
+  exact SameColl.trans (sameColl_payAll _ _ _ _ _ _ _ _ h1) (sameColl_setTask _ _)
 
-theorem sameColl_endOne (s s' : State) (id : String × String) (h : endOne s id = .ok s') : SameColl s s' := by
+theorem sameColl_endOne (bond : Denom) (s s' : State) (id : String × String) (h : endOne bond s id = .ok s') : SameColl s s' := by
   unfold endOne at h
   dsimp only at h
   split at h
@@ -237,7 +237,7 @@ theorem sameColl_endOne (s s' : State) (id : String × String) (h : endOne s id 
     · cases h
     · injection h with h; subst h; exact SameColl.refl _
   · rename_i s1 h1
-    have a1 := sameColl_aggregate s s1 _ h1
+    have a1 := sameColl_aggregate bond s s1 _ h1
     split at h
     · injection h with h; subst h; exact a1
     · split at h
@@ -246,9 +246,9 @@ theorem sameColl_endOne (s s' : State) (id : String × String) (h : endOne s id 
         · injection h with h; subst h; exact a1
       · rename_i s2 h2
         injection h with h; subst h
-        exact SameColl.trans a1 (sameColl_distribute _ _ _ h2)
+        exact SameColl.trans a1 (sameColl_distribute _ _ _ _ h2)
 
-theorem sameColl_endFold : ∀ (ids : List (String × String)) (s s' : State), endFold ids s = .ok s' → SameColl s s' := by
+theorem sameColl_endFold (bond : Denom) : ∀ (ids : List (String × String)) (s s' : State), endFold bond ids s = .ok s' → SameColl s s' := by
   intro ids
   induction ids with
   | nil => intro s s' h; simp only [endFold] at h; injection h with h; subst h; exact SameColl.refl _
@@ -258,7 +258,7 @@ theorem sameColl_endFold : ∀ (ids : List (String × String)) (s s' : State), e
     split at h
     · cases h
     · rename_i s1 h1
-      exact SameColl.trans (sameColl_endOne _ _ _ h1) (ih _ _ h)
+      exact SameColl.trans (sameColl_endOne _ _ _ _ h1) (ih _ _ h)
 
 theorem sameColl_endBlock (e : Env) (s s' : State) (h : endBlock e s = .ok s') : SameColl s s' := by
   unfold endBlock at h
@@ -266,6 +266,6 @@ theorem sameColl_endBlock (e : Env) (s s' : State) (h : endBlock e s = .ok s') :
   · cases h
   · rename_i s1 h1
     injection h with h; subst h
-    exact SameColl.trans (sameColl_endFold _ _ _ h1) (sameColl_delClosing _ _)
+    exact SameColl.trans (sameColl_endFold _ _ _ _ h1) (sameColl_delClosing _ _)
 
 end Shentu.Oracle
